@@ -438,8 +438,13 @@ Definition export_name_ok (pre post : snapshot) (failed : list (N * N)) (n : N) 
   (* compare-and-swap: a Git ref changes only if its value was the recorded one, and only
      to the (non-conflicted) local bookmark *)
   && ((c' =? c) || (teqb gr (tgt c) && teqb l (tgt c') && negb is_failed))
-  (* conflicted bookmarks are neither exported nor reported *)
-  && (if has_conflict l then (c' =? c) && negb is_failed else true)
+  (* conflicted bookmarks are not exported (the only failure that can be reported for one
+     is a conflicted git_refs entry); Git, git_refs and @git stay as they were *)
+  && (if has_conflict l
+      then (c' =? c) && teqb (get (o_grefs post) n) gr
+           && teqb (get (o_rgit post) n) (get (o_rgit pre) n)
+           && forallb (fun p => negb (fst p =? n) || (snd p =? 1)) failed
+      else true)
   (* a reported failure leaves Git, git_refs and the @git bookmark untouched *)
   && (if is_failed then (c' =? c) && teqb (get (o_grefs post) n) gr
                         && teqb (get (o_rgit post) n) (get (o_rgit pre) n)
@@ -480,6 +485,20 @@ Fixpoint steps_ok (anc : N -> N -> bool) (names : list N) (steps : list step) : 
   end.
 
 Definition empty_view : view := mk_view [] [] [].
+
+(** The model's own run of a history (observations ignored). *)
+Definition step_exec (anc : N -> N -> bool) (sg : view * gmap) (a : step) : view * gmap :=
+  let '(s, g) := sg in
+  match a with
+  | JjSet n t => (mk_view (set (local s) n t) (rgit s) (grefs s), g)
+  | JjSetRgit n t => (mk_view (local s) (set (rgit s) n t) (grefs s), g)
+  | JjSetGrefs n t => (mk_view (local s) (rgit s) (set (grefs s) n t), g)
+  | GitSet n c => (s, gset g n c)
+  | Import _ _ => (import_refs anc s g, g)
+  | Export _ _ _ => (fst (fst (export_refs s g)), snd (fst (export_refs s g)))
+  end.
+Definition run (anc : N -> N -> bool) (steps : list step) : view * gmap :=
+  fold_left (step_exec anc) steps (empty_view, []).
 
 Definition okb (c : case) : bool :=
   c_flags_ok c && steps_ok (ancb (c_graph c)) (c_names c) (c_steps c).
